@@ -651,6 +651,23 @@ fn run_token_image(c: &[i128]) -> (Vec<i128>, Vec<i128>) {
                 Ok(_) => s.push(0),
                 Err(e) => s.extend([1, sf_code(e)]),
             }
+            // validate_token against the mint / owner the REFERENCE reads from the same image: must pass; against another
+            // owner / another mint: must fail (judged by the predicate only)
+            s.push(7777);
+            match rtok::state::Account::unpack(&data) {
+                Ok(ra) if own => {
+                    let other = Pubkey::new_from_array([0x5A; 32]);
+                    let ok = m.validate_token(sfstate::ValidateToken { mint: Some(KeyFor::new(ra.mint)), owner: Some(ra.owner) });
+                    s.push(match ok { Ok(()) => 0, Err(_) => 1 });
+                    let wrong_owner = m.validate_token(sfstate::ValidateToken { mint: None, owner: Some(other) });
+                    let wrong_mint = m.validate_token(sfstate::ValidateToken { mint: Some(KeyFor::new(other)), owner: None });
+                    s.push(match (wrong_owner, wrong_mint) {
+                        (Err(_), Err(_)) => 1,
+                        _ => if ra.owner == other || ra.mint == other { 1 } else { 0 },
+                    });
+                }
+                _ => s.extend([9, 9]),
+            }
         }
     }
     let mut r = vec![];
